@@ -2,6 +2,9 @@
    Statements only; proofs in theories/PItem_proofs.v, PMem_proofs.v, PEnc_proofs.v. *)
 From CB Require Import Word PStream PEnc PItem SpecItem PItem_proofs PMem_proofs PEnc_proofs PFinal.
 From Coq Require Import Lia.
+From CB Require Import GenLeafTypes Bridge_leaf_enc.
+From CBGen Require Import Gen_leaf.
+From Coq Require Import ZArith.
 Local Open Scope N_scope.
 
 (* cbor_serialize into n bytes: returns the exact RFC length and stores exactly the RFC bytes when
@@ -37,3 +40,21 @@ Example C07_example :
   serialize_into (IArray false [IUint I8 1; ITag 5 (IText [0x61; 0x62])]) 6 = Some (6, [0x82; 0x01; 0xC5; 0x62; 0x61; 0x62]) /\
   wf_item (IArray false [IUint I8 1; ITag 5 (IText [0x61; 0x62])]).
 Proof. repeat split; try (vm_compute; reflexivity); cbn; repeat constructor; try lia. Qed.
+
+(* the primitive encoders of encoders.c, as translated from this run's clang AST (size test first,
+   then the stores, in program order), are the model's *)
+Theorem C07_code_encode_uint8 : forall v size off, v < 2^8 -> off < 2^8 ->
+  g_cbor_encode_uint8 (Z.of_N v) (Z.of_N size) (Z.of_N off) = zres (enc_uint8 v size off).
+Proof. exact bridge_encode_uint8. Qed.
+Theorem C07_code_encode_uint16 : forall v size off, v < 2^16 -> off < 2^8 ->
+  g_cbor_encode_uint16 (Z.of_N v) (Z.of_N size) (Z.of_N off) = zres (enc_uint16 v size off).
+Proof. exact bridge_encode_uint16. Qed.
+Theorem C07_code_encode_uint32 : forall v size off, v < 2^32 -> off < 2^8 ->
+  g_cbor_encode_uint32 (Z.of_N v) (Z.of_N size) (Z.of_N off) = zres (enc_uint32 v size off).
+Proof. exact bridge_encode_uint32. Qed.
+Theorem C07_code_encode_uint64 : forall v size off, v < 2^64 -> off < 2^8 ->
+  g_cbor_encode_uint64 (Z.of_N v) (Z.of_N size) (Z.of_N off) = zres (enc_uint64 v size off).
+Proof. exact bridge_encode_uint64. Qed.
+Theorem C07_code_encode_byte : forall v size, g_cbor_encode_byte (Z.of_N v) (Z.of_N size) = zres (enc_byte v size).
+Proof. exact bridge_encode_byte. Qed.
+Print Assumptions C07_code_encode_uint64.
